@@ -136,6 +136,56 @@ def resText : Option Term → String
   | some t => "ok " ++ t.text
   | none => "err"
 
+def dateText (d : Date) : String := s!"D({d.year},{d.month},{d.day})"
+def timeText (x : Time) : String := s!"T({x.hour},{x.minute},{x.second},{x.usValue},{x.usPrecision})"
+def dtText (x : DateTime) : String :=
+  "Z(" ++ naiveText x.naive ++ s!",{hexOf x.timeZone},{hexOf x.zoneAbbr},{x.utcOffset},{x.stdOffset})"
+def setText (s : MapSet) : String := "M[" ++ Term.textL s.elements ++ "]"
+
+def getList : Term → Except String (List Term)
+  | .nil => .ok []
+  | .list l => .ok l
+  | _ => .error "bad-list"
+
+/-- a value handed to a generic builder method: `{i,Int}`, `{b,true|false}`, `{s,<<..>>}`, `{t,Term}` -/
+def getBVal : Term → Except String BVal
+  | .tuple [.atom [105], .int i] => .ok (.int i)
+  | .tuple [.atom [98], .atom a] => .ok (.bool (a == kTrue))
+  | .tuple [.atom [115], .bin b] => .ok (.str b)
+  | .tuple [.atom [116], t] => .ok (.term t)
+  | _ => .error "bad-bval"
+
+/-- one builder call: `{put,K,V}`, `{atom,K,A}`, `{flag,K}`, `{term,K,T}`, `{if,C,K,V}`, `{some,K,V}`, `{some,K}`, `{ext,[{K,V}..]}` -/
+def getBOp : Term → Except String BOp
+  | .tuple [.atom [112, 117, 116], .atom k, v] => do pure (.put k (← getBVal v))
+  | .tuple [.atom [97, 116, 111, 109], .atom k, .atom a] => .ok (.putAtom k a)
+  | .tuple [.atom [102, 108, 97, 103], .atom k] => .ok (.putFlag k)
+  | .tuple [.atom [116, 101, 114, 109], .atom k, t] => .ok (.putTerm k t)
+  | .tuple [.atom [105, 102], .atom c, .atom k, v] => do pure (.putIf (c == kTrue) k (← getBVal v))
+  | .tuple [.atom [115, 111, 109, 101], .atom k, v] => do pure (.putSome k (some (← getBVal v)))
+  | .tuple [.atom [115, 111, 109, 101], .atom k] => .ok (.putSome k none)
+  | .tuple [.atom [101, 120, 116], l] => do
+    let l ← getList l
+    let kvs ← l.mapM fun
+      | .tuple [.atom k, v] => do pure (k, ← getBVal v)
+      | _ => .error "bad-ext"
+    pure (.extend kvs)
+  | _ => .error "bad-bop"
+
+def getBOps (t : Term) : Except String (List BOp) := do (← getList t).mapM getBOp
+
+def b01 (b : Bool) : String := if b then "1" else "0"
+
+/-- a sequence of set operations `{i,T}` insert, `{r,T}` remove, `{c,T}` contains, `clear`: the flags returned, then
+the set, its `len` and `is_empty` -/
+def setSeq : List Term → MapSet → String → Except String String
+  | [], s, acc => .ok (acc ++ " " ++ setText s ++ s!" {s.len} " ++ b01 s.isEmpty)
+  | .tuple [.atom [105], t] :: r, s, acc => let (s', f) := s.insert t; setSeq r s' (acc ++ b01 f)
+  | .tuple [.atom [114], t] :: r, s, acc => let (s', f) := s.remove t; setSeq r s' (acc ++ b01 f)
+  | .tuple [.atom [99], t] :: r, s, acc => setSeq r s (acc ++ b01 (s.contains t))
+  | .atom _ :: r, s, acc => setSeq r s.clear (acc ++ "x")
+  | _, _, _ => .error "bad-setop"
+
 end C20
 
 open C20 in
@@ -179,6 +229,62 @@ def handleC20 : List String → Option String
   | ["c20new", "fncl", m, f, a, g] => some <| run do
     let e := FnClause.new (← getHex m) (← getHex f) (← getInt a) (← getTerm g)
     pure ("FC(" ++ optHexText e.module ++ "," ++ optHexText e.function ++ "," ++ optIntText e.arity ++ "," ++ optTermText e.args ++ ")")
+  -- checked and unchecked constructors, derived conversions (date_time.rs)
+  | ["c20leap", y] => some <| run do pure (b01 (isLeapYear (← getInt y)))
+  | ["c20try", "date", y, m, d] => some <| run do
+    pure (optText dateText (Date.tryNew (← getInt y) (← getInt m) (← getInt d)))
+  | ["c20try", "time", h, mi, s, us, p] => some <| run do
+    pure (optText timeText (Time.tryNew (← getInt h) (← getInt mi) (← getInt s) (← getInt us) (← getInt p)))
+  | ["c20try", "hms", h, mi, s] => some <| run do
+    pure (optText timeText (Time.tryHms (← getInt h) (← getInt mi) (← getInt s)))
+  | ["c20try", "naive", y, mo, d, h, mi, s, us, p] => some <| run do
+    pure (optText (fun x => "N(" ++ naiveText x ++ ")")
+      (Naive.tryNew (← getInt y) (← getInt mo) (← getInt d) (← getInt h) (← getInt mi) (← getInt s) (← getInt us) (← getInt p)))
+  | ["c20try", "utc", y, mo, d, h, mi, s, us, p] => some <| run do
+    pure (optText dtText
+      (DateTime.tryUtc (← getInt y) (← getInt mo) (← getInt d) (← getInt h) (← getInt mi) (← getInt s) (← getInt us) (← getInt p)))
+  | ["c20new", "time", h, mi, s, us, p] => some <| run do
+    pure (timeText (Time.new (← getInt h) (← getInt mi) (← getInt s) (← getInt us) (← getInt p)))
+  | ["c20new", "hms", h, mi, s] => some <| run do pure (timeText (Time.hms (← getInt h) (← getInt mi) (← getInt s)))
+  | ["c20new", "naive", y, mo, d, h, mi, s, us, p] => some <| run do
+    pure ("N(" ++ naiveText (Naive.new (← getInt y) (← getInt mo) (← getInt d) (← getInt h) (← getInt mi) (← getInt s) (← getInt us) (← getInt p)) ++ ")")
+  | ["c20new", "utc", y, mo, d, h, mi, s, us, p] => some <| run do
+    pure (dtText (DateTime.utc (← getInt y) (← getInt mo) (← getInt d) (← getInt h) (← getInt mi) (← getInt s) (← getInt us) (← getInt p)))
+  | ["c20new", "withtz", y, mo, d, h, mi, s, us, p, tz, za, uo, so] => some <| run do
+    pure (dtText (DateTime.withTimezone (← getInt y) (← getInt mo) (← getInt d) (← getInt h) (← getInt mi) (← getInt s)
+      (← getInt us) (← getInt p) (← getHex tz) (← getHex za) (← getInt uo) (← getInt so)))
+  -- to_date / to_time / to_naive / from_date_time of a value given by its fields
+  | ["c20conv", "naive", y, mo, d, h, mi, s, us, p] => some <| run do
+    let x ← getNaive [y, mo, d, h, mi, s, us, p]
+    pure (dateText x.toDate ++ " " ++ timeText x.toTime ++ " N(" ++ naiveText (Naive.fromDateTime x.toDate ⟨x.hour, x.minute, x.second, x.usValue, x.usPrecision⟩) ++ ")")
+  | ["c20conv", "datetime", y, mo, d, h, mi, s, us, p, tz, za, uo, so] => some <| run do
+    let x : DateTime := ⟨← getNaive [y, mo, d, h, mi, s, us, p], ← getHex tz, ← getHex za, ← getInt uo, ← getInt so⟩
+    pure (dateText x.toDate ++ " " ++ timeText x.toTime ++ " N(" ++ naiveText x.toNaive ++ ")")
+  -- the calendar oracle on the implementation's answer (`1` = Some with the fields given, `0` = None)
+  | ["c20pcal", "date", y, m, d, got] => some <| run do
+    let want := b01 (decide (Spec.Cal.validDate (← getInt y) (← getInt m) (← getInt d)))
+    pure (if got == want then "ok" else s!"FAIL spec={want} impl={got}")
+  | ["c20pcal", "time", h, mi, s, us, p, got] => some <| run do
+    let want := b01 (decide (Spec.Cal.validTime (← getInt h) (← getInt mi) (← getInt s) (← getInt us) (← getInt p)))
+    pure (if got == want then "ok" else s!"FAIL spec={want} impl={got}")
+  | ["c20pcal", "naive", y, mo, d, h, mi, s, us, p, got] => some <| run do
+    let want := b01 (decide (Spec.Cal.validDate (← getInt y) (← getInt mo) (← getInt d)) &&
+      decide (Spec.Cal.validTime (← getInt h) (← getInt mi) (← getInt s) (← getInt us) (← getInt p)))
+    pure (if got == want then "ok" else s!"FAIL spec={want} impl={got}")
+  -- map_set.rs operations
+  | ["c20setseq", ops] => some <| run do setSeq (← getList (← getTerm ops)) MapSet.empty ""
+  | ["c20set2", a, b] => some <| run do
+    let a := MapSet.ofValues (← getList (← getTerm a))
+    let b := MapSet.ofValues (← getList (← getTerm b))
+    pure (setText (a.union b) ++ " " ++ setText (a.intersection b) ++ " " ++ setText (a.difference b) ++ " " ++
+      setText (a.symmetricDifference b) ++ " " ++ b01 (a.isSubset b) ++ b01 (a.isSuperset b) ++ b01 (a.isDisjoint b))
+  -- builders.rs: a chain of calls, then len, is_empty, build
+  | ["c20kwops", ops] => some <| run do
+    let (n, e, t) := kwRun (← getBOps (← getTerm ops))
+    pure (s!"{n} " ++ b01 e ++ " " ++ t.text)
+  | ["c20akmops", ops] => some <| run do
+    let (n, e, t) := akmRun (← getBOps (← getTerm ops))
+    pure (s!"{n} " ++ b01 e ++ " " ++ t.text)
   | "c20to" :: r => some <| run do
     let t ← toTermReq r
     pure t.text
